@@ -74,6 +74,14 @@ func ruleR01_1(w *World, r *Report) {
 					}
 					n++
 					cons := fmt.Sprintf("%s/map-range#%d over %s", objName(obj), n, types.ExprString(rs.X))
+					// a registry of datatypes: every iteration works on another datatype, and identifiers are allocated
+					// from per-datatype state (its own operation id and clock), so the visiting order cannot leak into them
+					if mt, _ := tv.Type.Underlying().(*types.Map); mt != nil {
+						if es := mt.Elem().String(); strings.HasSuffix(es, "iface.WiredDatatype") || strings.HasSuffix(es, "iface.Datatype") {
+							r.OK(cons, u.Pos(rs.Pos()), "registry of datatypes: each iteration acts on a different datatype with its own identifiers")
+							return true
+						}
+					}
 					// call sites of fn (and its closures) located inside the body
 					var roots []*ssa.Function
 					for _, f := range withClosures(fn) {
